@@ -112,4 +112,11 @@ theorem C10_pkcs1_encryption_framing (ps m : Bytes) (h : ∀ b ∈ ps, b ≠ 0) 
     Shm.Crypto.emePkcs1Decode (0x00 :: 0x02 :: (ps ++ 0x00 :: m)) = some m ∧ (Shm.Crypto.mgf1 hash seed len).length ≤ len :=
   ⟨Shm.Crypto.pkcs1_type2_roundtrip ps m h h8, Shm.Crypto.mgf1_length_le hash seed len⟩
 
+/-- **RSA-OAEP framing round trip** (RFC 8017 7.1): the reference decoder - which the monitor applies to `c^d mod n` of every OAEP ciphertext the token makes - recovers exactly the message
+    the encoder framed, for every message that fits, every seed of hash length, every hash with a fixed non-empty output length (MGF1 then returns exactly what is asked for) -/
+theorem C10_oaep_roundtrip (hash mgfHash : Bytes → Bytes) (hLen gLen : Nat) (hg0 : 0 < gLen) (hg : ∀ x, (mgfHash x).length = gLen)
+    (m seed : Bytes) (k : Nat) (hseed : seed.length = (hash []).length) (hfit : m.length + 2 * (hash []).length + 2 ≤ k) :
+    Shm.Crypto.emeOaepDecode hash mgfHash (Shm.Crypto.emeOaepEncode hash mgfHash m seed k) = some m :=
+  Shm.Crypto.oaep_roundtrip hash mgfHash m seed k (fun s n => Shm.Crypto.mgf1_length mgfHash gLen hg0 hg s n) hseed hfit
+
 end Shm.C10
